@@ -269,3 +269,164 @@ impl TxPool {
         self.record_conflict(tx)
     }
 }
+
+// ---------------------------------------------------------------------------
+// Service-level hooks (C12/C13): reach the pool and the block assembler that a
+// *started* tx-pool service owns, through its controller.
+// ---------------------------------------------------------------------------
+use crate::service::{TxPoolController, TxPoolService};
+use ckb_types::core::Capacity;
+use std::sync::Arc;
+use std::sync::Mutex as StdMutex;
+
+static VERIF_SERVICES: StdMutex<Vec<(usize, TxPoolService)>> = StdMutex::new(Vec::new());
+
+/// called by `TxPoolServiceBuilder::start` (feature `verif-hooks` only)
+pub(crate) fn register_service(controller: &TxPoolController, service: &TxPoolService) {
+    VERIF_SERVICES
+        .lock()
+        .expect("verif registry")
+        .push((controller.verif_key(), service.clone()));
+}
+
+/// `TemplateSize` of the block assembler's current template and the serialized
+/// parts it stands for.
+#[derive(Debug, Clone)]
+pub struct TemplateSizeDump {
+    pub txs: usize,
+    pub proposals: usize,
+    pub uncles: usize,
+    pub total: usize,
+    pub work_id: u64,
+    pub parent_hash: Byte32,
+    pub tx_ids: Vec<ProposalShortId>,
+    pub n_proposals: usize,
+    pub n_uncles: usize,
+}
+
+impl TxPoolController {
+    fn verif_service(&self) -> TxPoolService {
+        let key = self.verif_key();
+        VERIF_SERVICES
+            .lock()
+            .expect("verif registry")
+            .iter()
+            .find(|(k, _)| *k == key)
+            .map(|(_, s)| s.clone())
+            .expect("tx-pool service registered")
+    }
+
+    /// forget the service of this controller (lets its database be released)
+    pub fn verif_unregister(&self) {
+        let key = self.verif_key();
+        VERIF_SERVICES
+            .lock()
+            .expect("verif registry")
+            .retain(|(k, _)| *k != key);
+    }
+
+    /// Read-only dump of the service's pool taken under the pool's read lock,
+    /// with the hash of the tip of the snapshot the pool resolves against.
+    pub fn verif_dump(&self) -> (PoolDump, Byte32) {
+        let service = self.verif_service();
+        self.handle().block_on(async move {
+            let tx_pool = service.tx_pool.read().await;
+            (
+                tx_pool.pool_map.verif_dump(),
+                tx_pool.snapshot().tip_hash(),
+            )
+        })
+    }
+
+    /// `TxPool::package_txs` (the raw `TxSelector` selection, before the block
+    /// assembler's `calc_dao` filter) and a dump taken under the same read lock.
+    pub fn verif_package_txs(
+        &self,
+        max_block_cycles: Cycle,
+        txs_size_limit: usize,
+    ) -> (Vec<ProposalShortId>, usize, Cycle, PoolDump) {
+        let service = self.verif_service();
+        self.handle().block_on(async move {
+            let tx_pool = service.tx_pool.read().await;
+            let (entries, size, cycles) = tx_pool.package_txs(max_block_cycles, txs_size_limit);
+            (
+                entries.iter().map(|e| e.proposal_short_id()).collect(),
+                size,
+                cycles,
+                tx_pool.pool_map.verif_dump(),
+            )
+        })
+    }
+
+    /// The block assembler's running size bookkeeping beside the template it describes.
+    pub fn verif_template_size(&self) -> Option<TemplateSizeDump> {
+        let service = self.verif_service();
+        self.handle().block_on(async move {
+            let ba = service.block_assembler.as_ref()?;
+            let current = ba.current.lock().await;
+            Some(TemplateSizeDump {
+                txs: current.size.txs,
+                proposals: current.size.proposals,
+                uncles: current.size.uncles,
+                total: current.size.total,
+                work_id: current.template.work_id,
+                parent_hash: current.template.parent_hash.clone(),
+                tx_ids: current
+                    .template
+                    .transactions
+                    .iter()
+                    .map(|e| e.proposal_short_id())
+                    .collect(),
+                n_proposals: current.template.proposals.len(),
+                n_uncles: current.template.uncles.len(),
+            })
+        })
+    }
+
+    /// The submission path of `_process_tx` as two explicit steps: `pre_check`
+    /// (pool read lock), then `between()` runs while no lock is held (where the
+    /// service awaits script verification), then verification and `submit_entry`
+    /// (pool write lock).  Returns the verdict of the submission.
+    pub fn verif_process_tx_two_step(
+        &self,
+        tx: TransactionView,
+        between: impl FnOnce(),
+    ) -> Result<(), Reject> {
+        let service = self.verif_service();
+        let handle = self.handle().clone();
+        let (ret, snapshot) = handle.block_on(service.pre_check(&tx));
+        let (tip_hash, rtx, status, fee, tx_size) = ret?;
+        between();
+        handle.block_on(async move {
+            let verify_cache = service.fetch_tx_verify_cache(&tx).await;
+            let max_cycles = service.consensus.max_block_cycles();
+            let tx_env = Arc::new(status.verif_with_env(snapshot.tip_header()));
+            let verified = crate::util::verify_rtx(
+                Arc::clone(&snapshot),
+                Arc::clone(&rtx),
+                tx_env,
+                &verify_cache,
+                max_cycles,
+                None,
+            )
+            .await?;
+            let fee: Capacity = fee;
+            let entry = TxEntry::new(rtx, verified.cycles, fee, tx_size);
+            let (ret, _snapshot) = service.submit_entry(tip_hash, entry, status).await;
+            ret?;
+            service.notify_block_assembler(status).await;
+            Ok(())
+        })
+    }
+}
+
+impl crate::process::TxStatus {
+    fn verif_with_env(self, header: &ckb_types::core::HeaderView) -> ckb_verification::TxVerifyEnv {
+        use crate::process::TxStatus;
+        match self {
+            TxStatus::Fresh => ckb_verification::TxVerifyEnv::new_submit(header),
+            TxStatus::Gap => ckb_verification::TxVerifyEnv::new_proposed(header, 0),
+            TxStatus::Proposed => ckb_verification::TxVerifyEnv::new_proposed(header, 1),
+        }
+    }
+}
